@@ -55,6 +55,8 @@ def run(ctx):
     for s in specs(True, [ctx.seed] if q else [ctx.seed, ctx.seed + 1, ctx.seed + 2], [4] if q else [3, 12]):
         if q and s["template"] not in TEMPLATES_Q:
             continue
+        if s["template"].endswith("@A") or s["template"].endswith("|log4"):
+            continue    # the same configurations as their base templates, set up for other checks (identifier A / log rule)
         if s["template"] in PREFER and not PREFER[s["template"]](s["params"]):
             continue
         key = (s["template"], s["seed"], s["n"])
